@@ -51,10 +51,23 @@ let () =
          let split_hash s = match String.rindex_opt s '#' with
            | Some i -> (String.sub s 0 i, n (String.sub s (i + 1) (String.length s - i - 1)))
            | None -> failwith ("thread without id " ^ s) in
+         (* names and categories go through the extracted getCachedString model: pointer = one number per distinct
+            text (the harness passes one fixed address per text), one cache per recorder list (thread id) *)
+         let ptrs = Hashtbl.create 16 and caches = Hashtbl.create 16 in
+         let ptr text = match Hashtbl.find_opt ptrs text with Some p -> p
+           | None -> let p = n_of_int (Hashtbl.length ptrs + 1) in Hashtbl.add ptrs text p; p in
+         let cached id text =
+           let c = (match Hashtbl.find_opt caches id with Some c -> c | None -> []) in
+           let (t, c') = sc_lookup c (ptr text) text in Hashtbl.replace caches id c'; t in
+         let through id e = match e.e_kind with
+           | KEnd -> e
+           | _ -> let nm = cached id e.e_name in
+             let cat = (match e.e_cat with Some c -> Some (cached id c) | None -> None) in
+             { e with e_name = nm; e_cat = cat } in
          let ops = List.concat_map (fun (nmid, evs) ->
              let (nm, id) = split_hash nmid in
              (RAttach id :: (if nm = "TID" then [] else [RName (id, str_of_string nm)]))
-             @ List.map (fun e -> RRec (id, parse_ev e)) evs) (split_threads [] None rest) in
+             @ List.map (fun e -> RRec (id, through id (parse_ev e))) evs) (split_threads [] None rest) in
          let reg = reg_run ops in
          let ids = if order = "-" then [] else List.map n (String.split_on_char ',' order) in
          let entries = List.map (fun id -> match reg_find reg id with Some en -> en | None -> failwith "order names an unknown id") ids in
